@@ -48,7 +48,7 @@ check("C03",
       "deterministic simulation: seeded operation/fault histories with a step invariant (reference = raw-structure model), simulated RNG/addresses/step clock",
       "DESIGN.md section 4, C03")
 check("C04",
-      "Seeded search over histories of structural edits interleaved with distance queries on three long-lived trees sharing a namespace and leaf set; every query is compared with split sets and per-split lengths recomputed from the raw walk of the CURRENT structures (so stale caches are caught without a separate rule), plus symmetry of value and of definedness, zero distance to a re-drawing, triangle inequality, refusal of foreign namespaces.",
+      "Seeded search over histories of structural edits interleaved with distance queries on three long-lived trees sharing a namespace and a leaf set that grows and shrinks during the history (spare namespace taxa grafted on / leaf taxa pruned from all three); every query is compared with split sets and per-split lengths recomputed from the raw walk of the CURRENT structures (so stale caches are caught without a separate rule), plus symmetry of value and of definedness, zero distance to a re-drawing, triangle inequality, refusal of foreign namespaces.",
       "Trusted: own split extraction from the raw walk (unifurcation chains and unrooted basal bifurcations merged, absent length = 0); numeric equality of weighted distances only when all non-root edges have lengths.",
       "deterministic simulation: seeded edit/query histories against an executable reference model (split sets from the raw structure)",
       "DESIGN.md section 4, C04")
@@ -68,12 +68,12 @@ check("C12",
       "deterministic simulation: seeded mutation histories on source/copy with a non-interference invariant over canonical object-graph dumps",
       "DESIGN.md section 4, C12")
 check("C13",
-      "Seeded search over sessions: 2-8 read calls through seeded routes (tree list, single tree by offsets, incremental read into empty / non-empty list, file iterator, tree array, data set; string / stream with short reads / SimFS path) into ONE shared namespace, with lazily consumed file iterators advanced one tree at a time between the other calls (or abandoned midway); every delivery is compared with TreeList.get run alone; the namespace must hold no duplicate labels and stay usable afterwards.",
+      "Seeded search over sessions: 2-8 read calls through seeded routes (tree list, single tree by offsets, incremental read into empty / non-empty list, file iterator over one or several sources, tree array from one or several sources with burn-in, data set; string / stream with short reads / SimFS path) into ONE shared namespace, with lazily consumed file iterators advanced one tree at a time between the other calls (or abandoned midway); every delivery is compared with TreeList.get run alone; the namespace must hold no duplicate labels and stay usable afterwards.",
       "Trusted: TreeList.get(data=...) as the reference route (differential oracle); documents are generated valid; live iterators never see their namespace gain taxa (documented exclusion).",
       "deterministic simulation: seeded sessions with cooperatively stepped iterators and simulated streams/file system; differential oracle between read routes",
       "DESIGN.md section 4, C13")
 check("C16",
-      "Seeded search over histories of scoring calls (all flag combinations, several matrices, rotations, re-rootings) on ONE long-lived tree object; every score and per-character list is compared with a Sankoff dynamic programme over our own state tables on the raw tree, so any dependence on earlier calls shows up as a wrong value.",
+      "Seeded search over histories of scoring calls (all flag combinations, several long-lived matrices whose cells are edited in place between calls, rotations, re-rootings) on ONE long-lived tree object; every score and per-character list is compared with a Sankoff dynamic programme over our own state tables on the raw tree, so any dependence on earlier calls shows up as a wrong value.",
       "Trusted: the Sankoff reference (unit costs, own IUPAC/standard tables).",
       "deterministic simulation: seeded call histories on one object against an executable reference (Sankoff DP)",
       "DESIGN.md section 4, C16")
@@ -83,7 +83,7 @@ check("C18",
       "deterministic simulation: simulated RNG (recording/adversarial), global-RNG trip-wires and simulated addresses; replay from equal generator state",
       "DESIGN.md section 4, C18")
 check("C19",
-      "Seeded search over histories (3-30 steps) of concatenate / extend / add / replace / update / remove / discard / keep / fill / pack / subset / export operations on matrices of seven data types with partially overlapping taxon sets, repeated labels and repeated objects, foreign-namespace and self arguments as faults; reference model = label -> list of symbols per matrix, compared row by row after every step; every call under the step clock, HANG reported only after a fresh replay of the history at 20x the budget.",
+      "Seeded search over histories (3-30 steps) of concatenate / extend / add / replace / update / remove / discard / keep / fill / pack / subset / export operations on matrices of eight data types (continuous included; index lists unsorted and with repeats) with partially overlapping taxon sets, repeated labels and repeated objects, foreign-namespace and self arguments as faults; reference model = label -> list of symbols per matrix, compared row by row after every step; every call under the step clock, HANG reported only after a fresh replay of the history at 20x the budget.",
       "Trusted: the reference model; termination = budget of step-clock ticks (loop iterations and calls inside dendropy).",
       "deterministic simulation: seeded operation histories against a reference model, step clock for termination, simulated file system",
       "DESIGN.md section 4, C19")
